@@ -878,6 +878,14 @@ class Knobs:
         self.loop_only_in_call_expr = False
         self.unsized_len = False
         self.closure_mixed = False
+        self.loop_in_call_body_def = False
+        # directed search for the recorded shapes (oracle.quirks): `loop` is not used directly in a `% for` body,
+        # only by the closures / call expressions in it; every def that can be is called
+        self.hide_direct_loop = 0.0
+        self.p_loop_in_call_args = 0.25
+        self.call_defs = False
+        self.p_callerbody = 0.35
+        self.p_def_flag = 0.3
         self.lowerable = False      # stay inside the grammar of the shared target language (harness/gen_template.py)
         for k, v in kw.items():
             assert hasattr(self, k), k
@@ -891,8 +899,12 @@ class _Sc:
         self.in_def = False       # `caller` is a parameter
         self.in_loop = False      # break / continue allowed (same callable)
         self.loop = None          # None | "direct" (a % for of this callable encloses) | "closure"
+        self.loop_hidden = False  # the loop exists but the scope itself does not mention it (closures may)
         self.nested_for = False   # two % for of this callable enclose: loop.parent.index allowed
         self.unsized = False      # the innermost for iterates a generator / iterator
+        self.in_call_body = False  # directly in a <%call> body (under control lines): defs here are exported into
+                                   # `ccall` next to body(), they are no closures of the body
+        self.call_body_loop = False  # … and a `% for` of that body encloses this point
         self.no_parent = False    # inside the `% else:` of a `% for`: what `loop.parent` of a loop there is, is left open
         self.unsized_chain = False  # some loop `loop.parent…` can reach iterates one (bool() of it calls len())
         self.buffering = False
@@ -970,8 +982,10 @@ class Gen:
             return ["var", r.choice(sc.vars)]
         return ["lit", self.lit()]
 
-    def expr(self, sc, depth=0, loop_ok=True):
+    def expr(self, sc, depth=0, loop_ok=True, hidden_ok=False):
         r = self.rng
+        if sc.loop_hidden and not hidden_ok:
+            loop_ok = False
         choices = ["atom"] * 4
         if depth < 2:
             choices += ["cat", "filt"]
@@ -985,9 +999,9 @@ class Gen:
         if k == "atom":
             return self.atom(sc)
         if k == "cat":
-            return ["cat", self.expr(sc, depth + 1, loop_ok), self.expr(sc, depth + 1, loop_ok)]
+            return ["cat", self.expr(sc, depth + 1, loop_ok, hidden_ok), self.expr(sc, depth + 1, loop_ok, hidden_ok)]
         if k == "filt":
-            return ["filt", r.randrange(6), self.expr(sc, depth + 1, loop_ok)]
+            return ["filt", r.randrange(6), self.expr(sc, depth + 1, loop_ok, hidden_ok)]
         if k == "call":
             d = r.choice([d for d in sc.defs if not self.info[d]["uses_caller"]])
             return ["call", d, [self.expr(sc, depth + 1, loop_ok) for _ in range(self.info[d]["arity"])]]
@@ -999,7 +1013,7 @@ class Gen:
 
     def cond(self, sc):
         r = self.rng
-        if sc.loop and self.k.enable_loop and r.random() < 0.3 and not self.k.lowerable:
+        if sc.loop and not sc.loop_hidden and self.k.enable_loop and r.random() < 0.3 and not self.k.lowerable:
             attrs = ["first", "even", "odd", "index"]
             if not sc.unsized or self.k.unsized_len:
                 attrs += ["last", "reverse_index"]
@@ -1117,6 +1131,7 @@ class Gen:
         if k == "block":
             fl = FL(buffered=r.random() < 0.3, filters=[r.randrange(6)] if r.random() < 0.3 else [])
             s2 = sc.sub(depth=d, in_loop=False, loop=None, nested_for=False, top=False, in_block=True,
+                        in_call_body=False, call_body_loop=False,
                         buffering=fl["buffered"] or bool(fl["filters"]))
             s2.vars = [v for v in sc.vars if v in self._param_vars]
             return ["block", self.fresh_def(), fl, self.body(s2, allow_special=False)]
@@ -1135,18 +1150,29 @@ class Gen:
         use_loop = r.random() < self.k.p_loop_use and self.k.enable_loop and not sc.no_loopctx
         s2 = sc.sub(depth=d, in_loop=True, loop="direct" if (use_loop or sc.loop == "direct") else sc.loop,
                     nested_for=(sc.loop == "direct"), unsized=kind in ("gen", "iter"),
+                    call_body_loop=sc.in_call_body or sc.call_body_loop,
                     unsized_chain=sc.unsized_chain or kind in ("gen", "iter"))
         if not use_loop and sc.loop:
             # `loop` inside this body would denote this loop: LoopVariable then mangles it
             s2.loop = "direct"
         if not self.k.enable_loop or sc.no_loopctx:
             s2.loop = None
+        hide = bool(s2.loop) and r.random() < self.k.hide_direct_loop
+        if hide:
+            s2.loop = "direct"
+            s2.loop_hidden = True
+            use_loop = False
         s2.vars.append(v)
         # a def that reads the `loop` of the loop it sits in is called at that loop's level only: called from a
         # deeper `% for` it would see that loop (the closure reads the variable at call time), while textually
         # its innermost enclosing loop is the outer one - the property text leaves this open
         s2.defs = [d for d in s2.defs if not self.info[d].get("reads_loop")]
+        known = set(s2.defs)
         body = self.body(s2)
+        if self.k.call_defs:
+            for dd in s2.defs:
+                if dd not in known and not self.info[dd]["uses_caller"]:
+                    body.append(["expr", ["call", dd, [["lit", "p"] for _ in range(self.info[dd]["arity"])]]])
         # the `% else:` clause runs after exhaustion but before `% endfor`: the property text does not say which
         # loop `loop` denotes there (mako: still this loop, index = n) - `loop` is not used in it
         orelse = self.body(sc.sub(depth=d, loop=None, nested_for=False, no_parent=True)) \
@@ -1192,16 +1218,19 @@ class Gen:
         r = self.rng
         name = self.fresh_def()
         params = [self.fresh_var() for _ in range(r.choice([0, 0, 1, 1, 2]))]
-        fl = FL(buffered=r.random() < 0.3, filters=[r.randrange(6)] if r.random() < 0.3 else [])
+        fl = FL(buffered=r.random() < self.k.p_def_flag, filters=[r.randrange(6)] if r.random() < self.k.p_def_flag else [])
         closure_loop = sc.loop if not sc.top else None
+        if sc.in_call_body and sc.call_body_loop and not self.k.loop_in_call_body_def:
+            closure_loop = None       # recorded finding F-C03-11: such a def cannot see the loop of the call body
         reads, plain = self.closure_mode(closure_loop)
         s2 = sc.sub(depth=sc.depth + 1, in_def=True, in_loop=False, top=False, nested_for=False,
+                    in_call_body=False, call_body_loop=False, loop_hidden=False,
                     loop=("closure" if reads else None), no_loopctx=plain,
                     buffering=fl["buffered"] or bool(fl["filters"]))
         s2.vars = [v for v in sc.vars if v in self._param_vars] + params
         self._param_vars.update(params)
         body = self.body(s2, allow_special=False)
-        if r.random() < 0.35 and sc.depth + 1 < self.k.max_depth:
+        if r.random() < self.k.p_callerbody and sc.depth + 1 < self.k.max_depth:
             body.insert(r.randint(0, len(body)), ["expr", ["callerbody"]])
             uses = True
         else:
@@ -1214,11 +1243,13 @@ class Gen:
         r = self.rng
         cands = [d for d in sc.defs if self.info[d]["uses_caller"]] or sc.defs
         callee = r.choice(cands)
-        loop_in_args = bool(sc.loop) and self.k.enable_loop and r.random() < 0.25
+        loop_in_args = bool(sc.loop) and self.k.enable_loop and r.random() < self.k.p_loop_in_call_args
         # arguments without def calls: a def called while the expression is evaluated would take the pending caller
-        e = ["call", callee, [self.expr(sc, 2, loop_ok=loop_in_args) for _ in range(self.info[callee]["arity"])]]
+        e = ["call", callee, [self.expr(sc, 2, loop_ok=loop_in_args, hidden_ok=True)
+                              for _ in range(self.info[callee]["arity"])]]
         reads, plain = self.closure_mode(sc.loop)
         s2 = sc.sub(depth=sc.depth + 1, in_loop=False, top=False, buffering=False, nested_for=False,
+                    in_call_body=True, call_body_loop=False, loop_hidden=False,
                     loop=("closure" if reads else None), no_loopctx=plain)
         body = self.body(s2, allow_special=False)
         return ["call", e, body]
@@ -1232,6 +1263,8 @@ class Gen:
             return False, False
         if self.k.closure_mixed:
             return True, False
+        if self.k.hide_direct_loop:
+            return True, True
         if self.rng.random() < 0.6:
             return True, True
         return False, False
@@ -1245,6 +1278,10 @@ class Gen:
             body.append(self.gen_def(sc))
         rest = self.body(sc, r.randint(2, self.k.max_body + 2))
         body = body + rest
+        if self.k.call_defs:
+            for d in sc.defs:
+                if not self.info[d]["uses_caller"]:
+                    body.append(["expr", ["call", d, [["lit", "p"] for _ in range(self.info[d]["arity"])]]])
         if self.k.enable_loop and (not self.k.loop_only_in_closure or not self.k.loop_only_in_call_expr):
             fix_loop_scopes(body, self.k)
         return body
